@@ -5,6 +5,7 @@ import os
 
 from ..core import AnalysisError
 from .. import cfront as C
+from .. import cgsa, gsa
 from .. import cattr
 
 EXPLANATION = ('clang AST rules over girnode.c, girmodule.c, girparser.c, gitypelib.c, gthash.c: the three sibling switches (size, full '
@@ -95,6 +96,49 @@ def clang_sizes(ctx, names):
     for m in re.finditer(r'@sz_(\w+) = .*?global i64 (\d+)', p.stdout.decode()):
         out[m.group(1)] = int(m.group(2))
     return out
+
+
+def alias_rule(ctx, r8):
+    """C integer alias names (glong, gsize, gushort, ...) resolve to the fixed-width basic type of their size and signedness (shared with C08)"""
+    gp = ctx.c.tu('girepository/girparser.c')
+    bt = gp.vars.get('basic_types')
+    if bt is None:
+        raise AnalysisError('girparser.c: basic_types[] not found')
+    rows = []
+    for il in C.walk(bt):
+        if il.get('kind') == 'InitListExpr' and len(C.kids(il)) == 3 and C.string_value(C.kids(il)[0]) is not None:
+            rows.append((C.string_value(C.kids(il)[0]), C.declref(C.kids(il)[1])))
+    if len(rows) < 12:
+        raise AnalysisError('girparser.c: basic_types[] rows not recognised (%d)' % len(rows))
+    PB = cgsa.summarise(ctx, 'girparser.c' if False else 'girepository/girparser.c', 'parse_basic')
+    n_alias = 0
+    for e in PB.effects:
+        if e.kind != 'return':
+            continue
+        mm = re.match(r'^&basic_types\[([\d+]+)\]$', e.value)
+        if not mm:
+            continue
+        idx = sum(int(x) for x in mm.group(1).split('+'))
+        sizes = [a_ for a_ in gsa.atoms(e.cond) if re.search(r'\.size == sizeof\(g?u?int(\d+)(_t)?\)$', a_)]
+        byb = {}
+        for a_ in sizes:
+            byb.setdefault(int(re.search(r'int(\d+)', a_.split('sizeof')[1]).group(1)), []).append(a_)
+        need = [b_ for b_, ats in byb.items() if not gsa.can_hold(e.cond, dict((a_, False) for a_ in ats))]
+        if len(need) != 1:
+            continue        # the name-table loop (returns &basic_types[i]) or an unconditional row
+        bits = need[0]
+        sg = [a_ for a_ in gsa.atoms(e.cond) if a_.endswith('.is_signed')]
+        if not sg:
+            continue
+        signed = not gsa.can_hold(e.cond, dict((a_, False) for a_ in sg))
+        want = 'GI_TYPE_TAG_%sINT%d' % ('' if signed else 'U', bits)
+        n_alias += 1
+        got = rows[idx][1] if idx < len(rows) else None
+        r8.check(got == want, 'alias of %d bits, %s -> %s' % (bits, 'signed' if signed else 'unsigned', want), 'girepository/girparser.c', e.line,
+                 'parse_basic resolves a %s %d-bit C integer alias (glong, gsize, gushort, ...) to basic_types[%d] = %s, expected %s: the typelib records the wrong width or signedness for '
+                 'fields/parameters written with those C type names' % ('signed' if signed else 'unsigned', bits, idx, rows[idx] if idx < len(rows) else None, want), detail=got)
+    if n_alias < 8:
+        raise AnalysisError('parse_basic: only %d alias rows recognised' % n_alias)
 
 
 def check(ctx):
@@ -309,3 +353,22 @@ def check(ctx):
              'validate_interface_blob rejects a prerequisite that is a class: GObject allows it (GtkCellEditable requires GtkWidget) and the compiler writes it')
     dat = [c for c in C.calls(gm.body(gm.func('_g_ir_module_build_typelib')), ('g_malloc0', 'g_malloc', 'g_new0'))]
     r7.check(any(C.callee(c) == 'g_malloc0' for c in dat), 'typelib buffer zero-initialised', GM, 1, 'typelib buffer not allocated with g_malloc0')
+
+    # ------------------------------------------------------------------ R8 integer aliases, value signedness, dotted-name resolution
+    r8 = ctx.rule('R8', 'C integer aliases resolve by size and signedness; enum value signedness from the 64-bit value; dotted names resolve only to cross references', floor=10)
+    alias_rule(ctx, r8)
+    gn_ = ctx.c.tu('girepository/girnode.c')
+    btf = gn_.func('_g_ir_node_build_typelib')
+    uv = [(re.sub(r'\s+', '', gn_.text_of(r)), st) for l, r, st in C.assignments(gn_.body(btf)) if (C.member_path(l) or '').endswith('->unsigned_value')]
+    r8.check(len(uv) >= 1 and all('value->value' in t and 'blob->' not in t for t, st in uv), 'ValueBlob.unsigned_value from the 64-bit member value', 'girepository/girnode.c', gn_.line(uv[0][1]) if uv else gn_.line(btf),
+             'unsigned_value is computed as %s: deciding the sign on the value already truncated to 32 bits marks members with bit 31 set (1<<31) as signed, and they read back negative'
+             % [t for t, st in uv], detail=[t for t, st in uv])
+    FE = cgsa.summarise(ctx, 'girepository/girnode.c', 'find_entry_node')
+    hits = [e for e in FE.effects if e.kind in ('goto', 'return') and e.loops]
+    dotted = [a_ for a_ in FE.atoms() if re.match(r'^1 < ', a_)]
+    xref = [a_ for a_ in FE.atoms() if re.search(r'->type == G_IR_NODE_XREF$', a_)]
+    okx = bool(hits) and bool(dotted) and bool(xref) and all(not gsa.can_hold(e.cond, dict([(a_, True) for a_ in dotted] + [(a_, False) for a_ in xref])) for e in hits) and \
+        all(gsa.can_hold(e.cond, dict([(a_, True) for a_ in dotted] + [(a_, True) for a_ in xref])) for e in hits)
+    r8.check(okx, 'a dotted name matches only cross-reference entries of that namespace', 'girepository/girnode.c', gn_.line(FE.func),
+             'find_entry_node can match a LOCAL entry for a name qualified with another namespace (Other.Name resolves to the local Name): parent / interface / type references '
+             'point at the wrong blob')
